@@ -46,11 +46,12 @@ From RZ.proofs Require Import ExprCorrect.
 (* explicit casts inside arbitrary pure expressions are covered by the expression theorem (props/C02.v
    states it); here its instance for the fragment, restated so that C03 has its own obligation *)
 Theorem C03_casts_correct_repaired :
-  forall (cfg : config) (rw : regwidth) (E : cenv) (csub : csubs) xi V e st,
-  cfg_fx cfg = all_fixes -> cfg_params cfg = [] -> st_vars st = V -> pfrag V e ->
-  exists pv st', lower_expr cfg e st = OK (IPure pv, st') /\ st_same st st' /\
-    forall cs ms, rel V cs ms ->
-      exists ilv, eval rw ms [] (pv_term pv) = Some ilv /\ shape_pv pv ilv /\
+  forall (cfg : config) (rw : regwidth) (IM : string -> bool) (E : cenv) (csub : csubs) xi V e st,
+  cfg_fx cfg = all_fixes -> cfg_params cfg = [] -> lst_ok IM V st -> pfrag rw IM V e ->
+  exists pv st', lower_expr cfg e st = OK (IPure pv, st') /\ st_ext st st' /\ lst_ok IM V st' /\
+    forall R rem, regs_le (st_regs st') R -> norem rem ->
+    forall cs ms, rel IM E V cs ms -> imms_done IM (st_imms st') ms ->
+      exists ilv, eval rw ms [] (fin_pure R rem (pv_term pv)) = Some ilv /\ shape_pv pv ilv /\
         forall fuel cs' cv, ceval E csub xi fuel cs e = Some (cs', cv) -> cs' = cs /\ agrees pv cv ilv.
 Proof. exact expr_correct_unconditional. Qed.
 Print Assumptions C03_casts_correct_repaired.
